@@ -3,7 +3,7 @@
 //!
 //! * a thread-local simulated wall clock, read by the session-expiry decision,
 //! * atomic integer wrappers that call an optional thread-local scheduling-point
-//!   callback before every access, so that a controlled scheduler can interleave
+//!   callback before and after every access, so that a controlled scheduler can interleave
 //!   caller threads at the identifier allocation,
 //! * thread-local probe counters for reach measurement.
 
@@ -65,7 +65,8 @@ pub fn take_probes() -> BTreeMap<&'static str, u64> {
 macro_rules! shim_atomic {
     ($name:ident, $int:ty) => {
         /// Wrapper around the std atomic of the same name with a scheduling point
-        /// before every access.
+        /// before and after every access (a preemption right after an access is as real
+        /// as one right before it).
         #[derive(Debug)]
         pub struct $name(core::sync::atomic::$name);
 
@@ -82,32 +83,44 @@ macro_rules! shim_atomic {
 
             pub fn load(&self, order: Ordering) -> $int {
                 sched_point();
-                self.0.load(order)
+                let result = self.0.load(order);
+                sched_point();
+                result
             }
 
             pub fn store(&self, val: $int, order: Ordering) {
                 sched_point();
-                self.0.store(val, order)
+                let result = self.0.store(val, order);
+                sched_point();
+                result
             }
 
             pub fn swap(&self, val: $int, order: Ordering) -> $int {
                 sched_point();
-                self.0.swap(val, order)
+                let result = self.0.swap(val, order);
+                sched_point();
+                result
             }
 
             pub fn fetch_add(&self, val: $int, order: Ordering) -> $int {
                 sched_point();
-                self.0.fetch_add(val, order)
+                let result = self.0.fetch_add(val, order);
+                sched_point();
+                result
             }
 
             pub fn fetch_sub(&self, val: $int, order: Ordering) -> $int {
                 sched_point();
-                self.0.fetch_sub(val, order)
+                let result = self.0.fetch_sub(val, order);
+                sched_point();
+                result
             }
 
             pub fn fetch_max(&self, val: $int, order: Ordering) -> $int {
                 sched_point();
-                self.0.fetch_max(val, order)
+                let result = self.0.fetch_max(val, order);
+                sched_point();
+                result
             }
 
             pub fn compare_exchange(
@@ -118,7 +131,9 @@ macro_rules! shim_atomic {
                 failure: Ordering,
             ) -> Result<$int, $int> {
                 sched_point();
-                self.0.compare_exchange(current, new, success, failure)
+                let result = self.0.compare_exchange(current, new, success, failure);
+                sched_point();
+                result
             }
 
             pub fn compare_exchange_weak(
@@ -129,7 +144,9 @@ macro_rules! shim_atomic {
                 failure: Ordering,
             ) -> Result<$int, $int> {
                 sched_point();
-                self.0.compare_exchange_weak(current, new, success, failure)
+                let result = self.0.compare_exchange_weak(current, new, success, failure);
+                sched_point();
+                result
             }
 
             pub fn fetch_update<F>(
